@@ -328,6 +328,16 @@ pub fn build_raw(r: &RawRecipe) -> Option<Pos> {
     p.stm = if r.wtm { Color::White } else { Color::Black };
     Some(p)
 }
+fn raw_strategy_inner(max_men: usize) -> impl Strategy<Value = RawRecipe> {
+    raw_strategy(max_men)
+}
+fn c06_successors_if_legal(p: &Pos, st: &mut Stats) -> CaseResult {
+    if p.is_legal_position() {
+        c06_successors(p, st)
+    } else {
+        Ok(())
+    }
+}
 fn raw_strategy(max_men: usize) -> impl Strategy<Value = RawRecipe> {
     (0u8..64, 0u8..64, proptest::collection::vec((0u8..5, any::<bool>(), 0u8..64), 0..max_men), any::<bool>(), prop_oneof![9 => Just(false), 1 => Just(true)])
         .prop_map(|(wk, bk, men, wtm, pawns_anywhere)| RawRecipe { wk, bk, men, wtm, pawns_anywhere })
@@ -465,6 +475,33 @@ fn e2b_decode(i: u64) -> Option<Pos> {
 
 pub fn run_c06_generated(ctx: &mut Ctx) {
     let t = ctx.tier;
+    // is_check after a search has run on the same thread: nothing a search leaves behind (caches,
+    // hints, thread-local state) may influence the answer for an unrelated placement
+    run_prop(
+        ctx,
+        "placements_judged_after_a_search_on_the_same_thread",
+        || (proptest::sample::select(vec![22usize, 26, 28, 29, 35, 14, 23, 24, 30, 33]), proptest::collection::vec(any::<u16>(), 0..6), 50u64..600, proptest::collection::vec(raw_strategy_inner(8), 1..6)),
+        t.pick(1_500, 30_000),
+        |(ci, choices, expiry, placements), st| {
+            // a short search from a small ending (pawn endings included: promotions appear in the tree)
+            let r = WalkRecipe { start: Start::Corpus(*ci), choices: choices.clone() };
+            let Some((start, moves)) = play_walk(&r) else { return Ok(()) };
+            if let Ok(case) = crate::props::search::make_case(&start, &moves) {
+                if !case.root.legal_moves().is_empty() {
+                    let _ = crate::props::search::run_search(&case.board, &case.table, *expiry);
+                    st.label("searches_run_first");
+                }
+            }
+            for rr in placements {
+                if let Some(p) = build_raw(rr) {
+                    c06_position(&p, st)?;
+                    c06_successors_if_legal(&p, st)?;
+                }
+            }
+            Ok(())
+        },
+        |(ci, choices, expiry, placements)| json!({"after_search": {"corpus": ci, "choices": choices, "expiry": expiry}, "fens": placements.iter().filter_map(build_raw).map(|p| p.fen()).collect::<Vec<_>>()}),
+    );
     run_prop(
         ctx,
         "generator_produced_boards_on_walks",
@@ -475,9 +512,32 @@ pub fn run_c06_generated(ctx: &mut Ctx) {
             st.sample(|| json!({"successors_of": start.fen(), "moves": moves.iter().map(mv_name).collect::<Vec<_>>()}));
             let mut p = start.clone();
             c06_successors(&p, st)?;
+            // the third producer of boards: the UCI text-move applier
+            let z = crate::props::movegen::hasher();
+            let mut txt = board_of(&start)?;
+            let mut txt_alive = true;
             for m in &moves {
                 p = p.apply(m);
                 c06_successors(&p, st)?;
+                if txt_alive {
+                    catch(|| crate::uci::verif_make_move(&mut txt, &mv_name(m), z))?;
+                    // judged on the placement the applier produced (a wrong placement is C04's subject)
+                    if to_pos(&txt).ok().as_ref().map(|x| &x.sq) == Some(&p.sq) {
+                        st.eval();
+                        for c in [Color::White, Color::Black] {
+                            let want = p.in_check(c);
+                            let got = catch(|| is_check(&txt, ecol_of(c))).map_err(|e| format!("is_check panicked: {}", e))?;
+                            if got != want {
+                                return Err(format!("is_check({:?}) = {} on the board the text-move applier holds after {:?} from '{}' (position '{}') but under the rules that king is {}", c, got, moves.iter().map(mv_name).collect::<Vec<_>>(), start.fen(), p.fen(), if want { "attacked" } else { "not attacked" }));
+                            }
+                        }
+                        if p.classify(m) == MoveClass::Castle || p.sq[m.to as usize].map(|x| x.1) == Some(Kind::King) {
+                            st.label("text_applier_board_after_a_king_move_or_castling");
+                        }
+                    } else {
+                        txt_alive = false;
+                    }
+                }
             }
             Ok(())
         },
@@ -511,6 +571,26 @@ pub fn run_c06_generated(ctx: &mut Ctx) {
 }
 
 pub fn replay_c06(case: &Value) -> CaseResult {
+    if let Some(a) = case.get("after_search") {
+        let ci = a.get("corpus").and_then(|x| x.as_u64()).unwrap_or(22) as usize;
+        let choices: Vec<u16> = a.get("choices").and_then(|x| x.as_array()).map(|v| v.iter().filter_map(|x| x.as_u64()).map(|x| x as u16).collect()).unwrap_or_default();
+        let expiry = a.get("expiry").and_then(|x| x.as_u64()).unwrap_or(300);
+        if let Some((start, moves)) = play_walk(&WalkRecipe { start: Start::Corpus(ci), choices }) {
+            if let Ok(c) = crate::props::search::make_case(&start, &moves) {
+                if !c.root.legal_moves().is_empty() {
+                    let _ = crate::props::search::run_search(&c.board, &c.table, expiry);
+                }
+            }
+        }
+        let mut st = Stats::new();
+        for f in case.get("fens").and_then(|x| x.as_array()).cloned().unwrap_or_default() {
+            if let Some(p) = f.as_str().and_then(Pos::parse_fen) {
+                c06_position(&p, &mut st)?;
+                c06_successors_if_legal(&p, &mut st)?;
+            }
+        }
+        return Ok(());
+    }
     if let Some(f) = case.get("successors_of").and_then(|x| x.as_str()) {
         let mut p = Pos::parse_fen(f).ok_or("fen does not parse")?;
         let mut st = Stats::new();
